@@ -163,6 +163,7 @@ READER_SEEDS = [
     "#f32(1.0 2.5)", "#s8(-1 2)", "#u16(1 65535)", "(((((((((()))))))))) ", "\"\\a\\b\"", "#\\x0", "#\\delete", "#e1e400", "1e400",
     "#x1/2", "#o777", "-0.0", "123456789012345678901234567890", "#e.5e-3", "#i#x10", "#x#i10", "'#(a #u8(1) \"s\" #\\c 1.5 (x . y))",
     "#0=#(a #0# #0#)", "#0=(#0# #0#)", "#0=#(#1=(#0# #1# . #1#) #0# #1#)", "#0=(#1=#(#0# #1#) . #0#)",
+    "#0=(#1=#(#0# #1#) #0#)", "#0=(#1=#(#0# #1#) .#0=(a b . #0#)#t #0#)",
 ]
 MUT_TOKENS = ["(", ")", "#(", "#u8(", "'", "`", ",", ",@", ".", "#;", "#|", "|#", "\"", "|", "#\\", "#\\x", "\\x", ";", "#0=", "#0#", "#1=",
               "#99#", "#x", "#e", "#i", "#b", "#d", "#o", "/", "e", "+", "-", "i", "@", "#!", "#t", "#f", "\\", "\n", " ", "#", "..",
